@@ -149,6 +149,36 @@ fn adjust_pointers(
         .collect()
 }
 
+fn adjust_cstrings(
+    map: &HashMap<String, Vec<usize>>,
+    address: usize,
+    count: usize,
+    subtract: bool,
+) -> HashMap<String, Vec<usize>> {
+    map.iter()
+        .map(|(text, addresses)| {
+            let new_addresses = addresses
+                .iter()
+                .map(|a| adjust_pointer(*a, address, count, subtract))
+                .collect();
+            (text.clone(), new_addresses)
+        })
+        .collect()
+}
+
+fn filter_cstrings<F: Fn(usize) -> bool>(
+    map: &HashMap<String, Vec<usize>>,
+    keep: F,
+) -> HashMap<String, Vec<usize>> {
+    map.iter()
+        .map(|(text, addresses)| {
+            let kept: Vec<usize> = addresses.iter().copied().filter(|a| keep(*a)).collect();
+            (text.clone(), kept)
+        })
+        .filter(|(_, addresses)| !addresses.is_empty())
+        .collect()
+}
+
 impl BinArchive {
     pub fn new(endian: Endian) -> Self {
         BinArchive {
@@ -616,9 +646,11 @@ impl BinArchive {
         let new_text = adjust_text(&self.text, address, amount_in_bytes, false);
         let new_labels = adjust_labels(&self.labels, address, amount_in_bytes, false, ge);
         let new_pointers = adjust_pointers(&self.pointers, address, amount_in_bytes, false, ge);
+        let new_cstrings = adjust_cstrings(&self.cstrings, address, amount_in_bytes, false);
         self.text = new_text;
         self.labels = new_labels;
         self.pointers = new_pointers;
+        self.cstrings = new_cstrings;
         Ok(())
     }
 
@@ -634,9 +666,14 @@ impl BinArchive {
         let new_text = adjust_text(&filtered_text, address, amount_in_bytes, true);
         let new_labels = adjust_labels(&filtered_labels, address, amount_in_bytes, true, ge);
         let new_pointers = adjust_pointers(&filtered_pointers, address, amount_in_bytes, true, ge);
+        let filtered_cstrings = filter_cstrings(&self.cstrings, |a| {
+            !(address..(address + amount_in_bytes)).contains(&a)
+        });
+        let new_cstrings = adjust_cstrings(&filtered_cstrings, address, amount_in_bytes, true);
         self.text = new_text;
         self.labels = new_labels;
         self.pointers = new_pointers;
+        self.cstrings = new_cstrings;
         Ok(())
     }
 
@@ -651,6 +688,7 @@ impl BinArchive {
             self.labels.remove(&i);
             self.pointers.remove(&i);
         }
+        self.cstrings = filter_cstrings(&self.cstrings, |a| a < address);
         Ok(())
     }
 
